@@ -452,6 +452,11 @@ class Symx:
             i1 = self.iterator(args[1], st)
             if i0 and i1 and i0[0] == i1[0]:
                 return Function('ITER_' + ('MIN' if short == 'min_element' else 'MAX'))(Symbol('arr:' + i0[0]), i0[1], i1[1])
+        if short == 'accumulate' and len(args) == 3:
+            i0 = self.iterator(args[0], st)
+            i1 = self.iterator(args[1], st)
+            if i0 and i1 and i0[0] == i1[0]:
+                return Function('ACCUM', real=True)(Symbol('arr:' + i0[0]), i0[1], i1[1], self.sym(args[2], st))
         if kind == 'method':
             return self.method_call(e, st)
         if kind == 'op':
@@ -575,6 +580,14 @@ class Symx:
             if fn is not None:
                 fld = accessor_field(fn)
                 if fld is not None:
+                    if obj['k'] == 'Index':
+                        idx = []
+                        b = obj
+                        while strip(b)['k'] == 'Index':
+                            b = strip(b)
+                            idx.insert(0, self.sym(b['idx'], st))
+                            b = b['base']
+                        return Function('%s.%s' % (self.lv_name(b), fld), real=True)(*idx)
                     return self.symbol('%s.%s' % (self.lv_name(obj), fld), c.get('ret'))
             if fn is not None and (c['q'] in self.inline or '*' in self.inline) and self.depth < self.inline_depth:
                 return self.inline_call(fn, obj, args, st)
